@@ -13,3 +13,8 @@ LEVEL_NOTE = "Trusts: the pyvc encoding of the Python subset (audited by the nat
 TECHNIQUE = "contract-based deductive verification: VCs generated from the ast of the real functions, discharged by z3/cvc5"
 from contracts import ranges_init as RI
 UNITS += RI.units_range_init()
+from contracts import tokens as TOK
+UNITS += [TOK.unit_sweep_range_text(), TOK.unit_sweep_decimal_text(), TOK.unit_audit_tok()]
+UNITS += [R.unit_decimal_range_validate()]
+from contracts import ranges_dinit as RD
+UNITS += RD.units_decimal_range_init()
